@@ -6,6 +6,7 @@ import (
 	"errors"
 	"fmt"
 	"reflect"
+	"strings"
 	"sync"
 
 	jsonrpc "github.com/filecoin-project/go-jsonrpc"
@@ -155,10 +156,35 @@ const (
 	kCodecS
 	kCodecD
 	kCodecF
+	kCodecT
+	kNilOK
 	kCount
 )
 
-var c11KindName = []string{"nil", "errors.New", "fmt.Errorf", "wrapped", "EVal(value,plain)", "EPtr(pointer,plain)", "MPtr(pointer,marshalable)", "MVal(value,marshalable)", "CodecS", "CodecD", "CodecF"}
+// CodecT is a codec-style error whose own conversion to the wire form fails (server side).
+type CodecT struct{ Msg string }
+
+func (e *CodecT) Error() string { return "codect:" + e.Msg }
+func (e *CodecT) ToJSONRPCError() (jsonrpc.JSONRPCError, error) {
+	return jsonrpc.JSONRPCError{}, errors.New("conversion to the wire form failed")
+}
+func (e *CodecT) FromJSONRPCError(j jsonrpc.JSONRPCError) error {
+	e.Msg = strings.TrimPrefix(j.Message, "codect:")
+	return nil
+}
+
+// NilOK is an error type whose methods tolerate a nil receiver; handlers return a typed nil of it,
+// which is a non-nil error.
+type NilOK struct{ Msg string }
+
+func (e *NilOK) Error() string {
+	if e == nil {
+		return "nilok:typed-nil"
+	}
+	return "nilok:" + e.Msg
+}
+
+var c11KindName = []string{"nil", "errors.New", "fmt.Errorf", "wrapped", "EVal(value,plain)", "EPtr(pointer,plain)", "MPtr(pointer,marshalable)", "MVal(value,marshalable)", "CodecS", "CodecD", "CodecF", "CodecT(ToJSONRPCError fails)", "typed-nil"}
 
 func mkErr(kind int, msg string, a int) error {
 	switch kind {
@@ -182,6 +208,10 @@ func mkErr(kind int, msg string, a int) error {
 		return &CodecD{Msg: msg, N: a, L: []string{msg, "x"}}
 	case kCodecF:
 		return &CodecF{Msg: msg}
+	case kCodecT:
+		return &CodecT{Msg: msg}
+	case kNilOK:
+		return (*NilOK)(nil)
 	}
 	return nil
 }
@@ -411,6 +441,14 @@ func (c11) Run(sc core.Scenario) core.Result {
 		}
 		if shape == 1 && val != "" {
 			r.Violate("nonzero-with-error", "%s: caller got value %q alongside the error", label, val)
+		}
+		if kind == kCodecT || kind == kNilOK {
+			// server-side conversion failure / typed nil: whatever form the error takes on the client, it is an
+			// error (checked above) and it still carries the handler's message
+			if !strings.Contains(got.Error(), orig.Error()) {
+				r.Violate("message-changed:"+c11KindName[kind], "%s: the caller's error %T %q does not carry the handler's message %q", label, got, core.Trunc(got.Error(), 100), core.Trunc(orig.Error(), 100))
+			}
+			continue
 		}
 		// what the server puts on the wire
 		code, isCodec := 1, false
